@@ -123,19 +123,26 @@ class Report:
         return EXIT_OK
 
 
-def _worker_wrap(args):
-    fn, item = args
+_FN = None
+_ITEMS = None
+
+
+def _worker_wrap(i):
+    item = _ITEMS[i]
     try:
-        return fn(item)
+        return _FN(item)
     except Exception as e:  # noqa: BLE001
         return {"__error__": f"{type(e).__name__}: {e}", "__trace__": traceback.format_exc()[-1500:], "__item__": str(item)[:300]}
 
 
 def pmap(fn, items, jobs):
-    """Parallel map with fork; fn must return picklable plain data."""
-    items = list(items)
-    if jobs <= 1 or len(items) <= 1:
-        return [_worker_wrap((fn, it)) for it in items]
+    """Parallel map with fork; items/fn are inherited by the forked workers (no pickling of
+    inputs); fn must return picklable plain data."""
+    global _FN, _ITEMS
+    _FN, _ITEMS = fn, list(items)
+    n = len(_ITEMS)
+    if jobs <= 1 or n <= 1:
+        return [_worker_wrap(i) for i in range(n)]
     ctx = mp.get_context("fork")
-    with ctx.Pool(min(jobs, len(items))) as pool:
-        return pool.map(_worker_wrap, [(fn, it) for it in items], chunksize=max(1, len(items) // (jobs * 8)))
+    with ctx.Pool(min(jobs, n)) as pool:
+        return pool.map(_worker_wrap, range(n), chunksize=max(1, n // (jobs * 8)))
